@@ -194,6 +194,10 @@ namespace nmtools::index
             else if (ad==bd) {
                 // negative axis counts from the last axis
                 auto m_axis = ((long long)axis < 0) ? ((long long)axis + (long long)ad) : (long long)axis;
+                // axis out of range (numpy raises AxisError)
+                if ((m_axis < 0) || (m_axis >= (long long)ad)) {
+                    success = false;
+                }
                 auto shape_concatenate_impl = [&](auto i){
                     auto ai = at(ashape,i);
                     auto bi = at(bshape,i);
